@@ -144,6 +144,16 @@ theorem C01_basis {A : Op K} (hE : IsLinear A.nin A.eval) (hB : IsLinear A.nout 
       ip A.nout (A.eval (basis j)) (basis i) = ip A.nin (basis j) (A.adj (basis i))) : IsAdj A :=
   basis_lift hE hB hb
 
+/-- the lifting lemma in `Re⟪·,·⟫` (operators between real and complex spaces, realified basis `{e_j, i·e_j}`): this is
+    the form of the finite check the harness evaluates on the implementation -/
+theorem C01_basis_re {A : Op ℂ} (hE : IsRLinear A.nin A.eval) (hB : IsRLinear A.nout A.adj)
+    (h11 : ∀ j < A.nin, ∀ i < A.nout, (ip A.nout (A.eval (basis j)) (basis i)).re = (ip A.nin (basis j) (A.adj (basis i))).re)
+    (h1i : ∀ j < A.nin, ∀ i < A.nout, (ip A.nout (A.eval (basis j)) (ibasis i)).re = (ip A.nin (basis j) (A.adj (ibasis i))).re)
+    (hi1 : ∀ j < A.nin, ∀ i < A.nout, (ip A.nout (A.eval (ibasis j)) (basis i)).re = (ip A.nin (ibasis j) (A.adj (basis i))).re)
+    (hii : ∀ j < A.nin, ∀ i < A.nout, (ip A.nout (A.eval (ibasis j)) (ibasis i)).re = (ip A.nin (ibasis j) (A.adj (ibasis i))).re) :
+    IsAdjRe A :=
+  basis_lift_re hE hB h11 h1i hi1 hii
+
 /-- RECORDED (fixed in /repo by 17a96e9): `.T` of a complex operator with `adj_fn = self.__call__` -/
 theorem C01_T_pinned_fails (c : K) (hc : star c ≠ c) : ¬ IsAdj (Op.trPinned (Op.mat 1 1 (fun _ _ => c))) :=
   trPinned_not_adjoint c hc
@@ -152,6 +162,11 @@ theorem C01_T_pinned_fails (c : K) (hc : star c ≠ c) : ¬ IsAdj (Op.trPinned (
 theorem C01_dstack_pinned_fails (c : K) (hc : star c ≠ c) :
     ¬ IsAdj (Op.dconsPinned true (Op.mat 1 1 (fun _ _ => c)) Op.dnil) :=
   dconsPinned_not_adjoint c hc
+
+/-- RECORDED (fixed in /repo by fa45c48): `DiagonalReplicated` adjoint mapped over the un-swapped axes -/
+theorem C01_drep_pinned_fails :
+    ¬ IsAdj (Op.drepPinned 2 2 1 (Op.mat 2 2 (fun i j => if i = 0 ∧ j = 1 then (1 : K) else 0))) :=
+  drepPinned_not_adjoint
 
 /-! ### non-vacuity -/
 
@@ -178,6 +193,14 @@ example (M : Nat → Nat → K) : IsAdj (Op.mat 2 3 M) ∧ IsMat (Op.mat 2 3 M) 
 
 -- the matrix leaf satisfies the hypotheses of the lifting lemma
 example (M : Nat → Nat → K) : IsLinear 3 (Op.mat 2 3 M).eval := by
+  refine ⟨?_, ?_, ?_⟩
+  · intro x y; funext i; simp [Op.mat, vadd, sumTo_eq, mul_add, Finset.sum_add_distrib]
+  · intro c x; funext i; simp [Op.mat, vsmul, sumTo_eq, Finset.mul_sum]; apply Finset.sum_congr rfl; intro j _; ring
+  · intro x x' h; funext i; simp only [Op.mat, sumTo_eq]; apply Finset.sum_congr rfl; intro j hj
+    rw [h j (Finset.mem_range.mp hj)]
+
+-- a complex matrix leaf is real-linear in the sense of `C01_basis_re`
+example (M : Nat → Nat → ℂ) : IsRLinear 3 (Op.mat 2 3 M).eval := by
   refine ⟨?_, ?_, ?_⟩
   · intro x y; funext i; simp [Op.mat, vadd, sumTo_eq, mul_add, Finset.sum_add_distrib]
   · intro c x; funext i; simp [Op.mat, vsmul, sumTo_eq, Finset.mul_sum]; apply Finset.sum_congr rfl; intro j _; ring
